@@ -24,6 +24,21 @@ type TxSpec struct {
 	Fee     action.Fee
 	Memo    string
 	Signers []*Account
+	// Vary, if set, turns this spec into a distinct transaction with the same meaning (default: the
+	// memo gets a suffix). Kinds whose memo is constrained (OLVM: memo == nonce) set it.
+	Vary func(t *TxSpec, tag string) `json:"-"`
+}
+
+// Fresh returns a copy that is a different transaction (different bytes, different hash, correctly
+// signed) with the same meaning.
+func (t *TxSpec) Fresh(tag string) *TxSpec {
+	c := *t
+	if t.Vary != nil {
+		t.Vary(&c, tag)
+	} else {
+		c.Memo = c.Memo + "~" + tag
+	}
+	return &c
 }
 
 // Raw returns the RawTx.
